@@ -171,11 +171,26 @@ def describe(tl):
     return '[' + ', '.join('%.6g Hz x %.6g s' % x for x in tl[:6]) + (' ...' if len(tl) > 6 else '') + ']'
 
 
-def run_case(s, part, leg, ref_strings, classes, case):
+def _lower(ref):
+    """The same music string in lower case (the pointers of VARPTR$ are binary and stay as they are)."""
+    out = b''
+    i = 0
+    while i < len(ref):
+        if ref[i:i + 3] in (PTR_STR, PTR_INT):
+            out += ref[i:i + 3]
+            i += 3
+        else:
+            out += ref[i:i + 1].lower()
+            i += 1
+    return out
+
+
+def run_case(s, part, leg, ref_strings, classes, case, spell=None):
     """Execute PLAY on fresh play state; compare every voice with the reference.
-    ref_strings: list of reference byte strings (1 or 3 voices)."""
+    ref_strings: list of reference byte strings (1 or 3 voices); spell: how the strings are written for the interpreter."""
     q = s._impl.queues.audio
-    exprs = b','.join(real_expr(b'MB' + r) if i == 0 else real_expr(r) for i, r in enumerate(ref_strings))
+    spell = spell or (lambda b: b)
+    exprs = b','.join(real_expr(spell(b'MB' + r)) if i == 0 else real_expr(spell(r)) for i, r in enumerate(ref_strings))
     stmt = b'CLEAR:A$="%s":L%%=%d:PLAY %s' % (VARS['A$'], VARS['L%'], exprs)
     q.drain()
     try:
@@ -251,6 +266,9 @@ def work_seq(shard):
         classes = '+'.join(sorted(set(COARSE.get(t[1], t[1]) for t in toks))) or 'empty'
         case = {'leg': 'seq', 'tokens': list(idxs)}
         run_case(s, part, 'seq', [ref], classes, case)
+        # the same string in lower case
+        if ref != _lower(ref):
+            run_case(s, part, 'seq-lower', [ref], classes, dict(case, lower=True), spell=_lower)
         part.classes.add(classes if len(classes) < 40 else classes[:40])
     part.sample({'tokens': [list(i) for i in shard[:2]]})
     return part
